@@ -12,6 +12,8 @@ var plans = map[string]*propertyPlan{
 		Explain: "Reply loops of QuorumCall and handleAsyncCall verified against a ghost history of received answers (seen/failed/okmsg, counters): every quorum-function call site is checked for its arguments, the reply set and the once-per-successful-reply / never-after-quorum discipline; success returns exactly the function's last value."},
 	"C02": {ID: "C02", Level: "proof", Pkgs: rootPkg, Extra: modeScan("C02"),
 		Explain: "Every return of the reply loops is classified (quorum / Incomplete / context) by postconditions over the ghost history; the progress obligation at each blocking select (an answer is still owed) covers the zero-target case; the future is written exactly once before its single close; QuorumCallError.Is is specified completely."},
+	"C11": {ID: "C11", Level: "proof", Pkgs: rootPkg, Extra: modeScan("C11"),
+		Explain: "Correctable is verified as a monitor (invariant over level, done, the watcher slots and the closed-ness of their channels, re-established at every unlock); set's two loops carry quantified invariants (no double close, every watcher at or below the level released); the handler loop is proved to publish exactly the quorum function's level and value whenever the level rises, before it blocks again, to complete exactly once under the three stated conditions and never to lower a level."},
 	"C19": {ID: "C19", Level: "proof", Pkgs: rootPkg,
 		Explain: "Less is proved equal to the lexicographic combination of its keys (loop invariant over a recursive spec function); each provided key's real code is inlined into four strict-weak-order lemmas; Sort/Swap/Len contracts tie sort.Sort's trusted contract to the node slice."},
 }
